@@ -201,6 +201,19 @@ def replay(ctx, st, idx):
             np.allclose(got[0][1] * h, want[0][1], rtol=0, atol=1e-9) and np.allclose(got[1][1] * h, want[1][1], rtol=0, atol=1e-9)
         if not ok:
             return ctx.violation(sig + f'values|ndim{len(s1)}', f'rotate of a PixCoord of shape {s1} about {c} by direction {d} differs from the exact rotation', case)
+        if dtype is np.int64 and np.asarray(p.x).size:
+            # the same points shifted into the non-negative quadrant and stored as unsigned integers (rotation commutes with the shift):
+            # an offset from the centre is negative for the points left of / below it, which the unsigned type cannot hold
+            K = 64
+            for ut in (np.uint8, np.uint16):
+                pu = PixCoord((np.asarray(p.x) + K).astype(ut), (np.asarray(p.y) + K).astype(ut))
+                try:
+                    ru = pu.rotate(PixCoord(c[0] + K, c[1] + K), ang)
+                    gu = obs(np.asarray(ru.x, dtype=float) - K), obs(np.asarray(ru.y, dtype=float) - K)
+                except Exception as ex:  # noqa
+                    return ctx.violation(sig + f'raises|{ut.__name__}', f'rotate of {ut.__name__} coordinates raised {type(ex).__name__}', dict(case, dtype=ut.__name__))
+                if not (np.allclose(gu[0][1] * h, want[0][1], rtol=0, atol=1e-9) and np.allclose(gu[1][1] * h, want[1][1], rtol=0, atol=1e-9)):
+                    return ctx.violation(sig + f'values|{ut.__name__}', f'rotate of {ut.__name__} coordinates about a centre among them differs from the exact rotation', dict(case, dtype=ut.__name__))
     return False
 
 
